@@ -20,6 +20,17 @@ Definition judge (t : tree) : option (list Z) :=
       else Some [2; 2]
     | Some _, _ => Some [2; 3]
     end
+  | L [L [_; _; L [A 6; _; A n; A m]]; o] =>
+    (* a source of n members 0..n-1, far too many to tabulate: index classes modulo m, with the law of
+       Generators.one_of_class_prob / class_count_Z; a value outside 0..n-1 is reported as class -1 *)
+    if (n <=? 0) || (m <=? 0) then None else
+    match o with
+    | L [A nc; _] =>
+      if nc =? n
+      then Some (4 :: 0 :: enc_law (map (fun r => (Z.of_nat r, Qmake ((n + m - 1 - Z.of_nat r) / m) (Z.to_pos n))) (seq 0 (Z.to_nat m))))
+      else Some [2; 2]
+    | _ => Some [2; 3]
+    end
   | L [L [_; _; L (A k :: A size :: _)]; L entries] =>
     (* every draw produced exactly `size` elements, all from the element generator *)
     Some [if forallb (fun e => match e with L [A len; A 1; _] => len =? size | _ => false end) entries
